@@ -41,7 +41,7 @@ class StubScenario:
         self.fi = repo.fn(module, func)
         self.extra_hook = call_hook
         inl = {f"{ST}.{x}" for x in inline} | {"monkeytype.typing.make_iterator", "monkeytype.typing.make_generator"}
-        self.ri = RepoInterp(repo, self.fi, inline=inl, call_hook=self.call_hook, may_fork=(), heap=True, max_depth=6)
+        self.ri = RepoInterp(repo, self.fi, inline=inl, call_hook=self.call_hook, may_fork=(), heap=True, max_depth=16)
         self.ri.on_attr = self.on_attr  # type: ignore[method-assign]
         self.ri.interp.on_attr = self.on_attr
         self.ri.on_subscript = self.on_subscript  # type: ignore[method-assign]
